@@ -248,6 +248,13 @@ func c07(e *Env) {
 	if c.Choose("c07fault?", 2) == 1 {
 		faultAt = 4 + c.Choose("c07faultat", 24)
 	}
+	// some runs: the cluster grows while the history runs (a node joins, perhaps a second one later);
+	// the new node knows the same keyspaces. Sessions that exist, sessions whose USE failed
+	// earlier and sessions created afterwards all have to cope.
+	joinAt, joins, nodes0 := -1, 0, len(w.Nodes)
+	if c.Choose("c07node-joins", 4) == 3 {
+		joinAt = 3 + c.Choose("c07joinat", 25)
+	}
 	enabled := func() []int {
 		var out []int
 		if w.Now() < pauseUntil {
@@ -301,6 +308,23 @@ func c07(e *Env) {
 			e.Res.Stats["probe.c07.client_replaced"]++
 			return
 		}
+		if opsDone == joinAt && len(w.Nodes) < 6 {
+			n := w.AddNode(true)
+			n.Joined = true
+			n.Keyspaces = map[string]bool{}
+			for k, v := range w.Nodes[0].Keyspaces {
+				n.Keyspaces[k] = v
+			}
+			n.Keyspaces["ks4"] = true
+			n.BusyKeyspaces = map[string]bool{"ks_busy": true}
+			w.EmitEvent(&message.TopologyChangeEvent{ChangeType: primitive.TopologyChangeTypeNewNode, Address: &primitive.Inet{Addr: n.IP, Port: 9042}})
+			e.Res.Stats["probe.c07.node_joined_mid_history"]++
+			joins++
+			joinAt = -1
+			if joins < 2 && c.Choose("c07joins-again", 2) == 1 {
+				joinAt = opsDone + 2 + c.Choose("c07joinat2", 15)
+			}
+		}
 		useInFlight := false
 		for _, x := range st {
 			if x.pending != nil {
@@ -325,10 +349,10 @@ func c07(e *Env) {
 			e.Res.Stats["probe.c07.node_stalled"]++
 			faultAt = -1
 		}
-		if opsDone == faultAt && crashedNode == nil && len(w.Nodes) > 1 && c.Choose("c07crash?", 3) == 2 {
+		if opsDone == faultAt && crashedNode == nil && nodes0 > 1 && c.Choose("c07crash?", 3) == 2 {
 			// or: one node is down for a while (connections refused). Sessions created meanwhile
 			// have no connection to it yet; a USE must still be decided by the nodes that are up.
-			crashedNode = w.Nodes[c.Choose("c07crashnode", len(w.Nodes))]
+			crashedNode = w.Nodes[c.Choose("c07crashnode", nodes0)] // (one of the nodes the proxy has known from the start: another of them stays up)
 			crashedNode.Crash()
 			faultsInjected = true
 			crashUntil = w.Now() + time.Duration(8+c.Choose("c07crashlen", 40))*time.Second
@@ -373,6 +397,11 @@ func c07(e *Env) {
 				if c.Choose("usecase", 3) == 1 {
 					text = "use " + u.text
 				}
+				if c.Choose("uselead?", 5) == 4 {
+					// white space in front of the statement means nothing
+					text = []string{" ", "\t", "\n", "\r\n", " \r\n\t"}[c.Choose("uselead", 5)] + text
+					e.Res.Stats["probe.c07.use_with_leading_white_space"]++
+				}
 				s.pendUse = u
 				s.stalled = stalledNode != nil
 				s.pending = cl.Send("use", "", world.QueryMsg(text, primitive.ConsistencyLevelOne), nil)
@@ -397,7 +426,7 @@ func c07(e *Env) {
 		switch kind {
 		case 0:
 			stt := world.DrawStmt(c, "'"+tok+"'", "t")
-			if len(w.Nodes) > 1 && c.Choose("c07retried", 4) == 3 {
+			if nodes0 > 1 && c.Choose("c07retried", 4) == 3 { // (nodes the proxy has known from the start: one that has just joined is not usable yet)
 				// the first node asks the proxy to go elsewhere: the second attempt is made later, on
 				// another host, in the same keyspace as the first
 				w.Script[tok] = []world.Outcome{world.ErrOutcome("bootstrapping", &message.IsBootstrapping{ErrorMessage: "bootstrapping"})}
